@@ -41,8 +41,9 @@ removes the value from `temp_values`).
 namespace RtenVerif.Executor
 open RtenVerif.Graph
 
-/-- Point update of a total map. -/
-def upd {β : Type} (f : Nat → β) (k : Nat) (b : β) : Nat → β := fun x => if x = k then b else f x
+/-- Point update of a total map.  (`noinline`: keeps the compiled driver from floating the
+new value's computation under the closure, which made lookups exponential.) -/
+@[noinline] def upd {β : Type} (f : Nat → β) (k : Nat) (b : β) : Nat → β := fun x => if x = k then b else f x
 
 /-! ## `NodeRefCount` (u8) -/
 
@@ -167,10 +168,37 @@ def incOuts (rc : Nat → Nat) : List Nat → Nat → Nat
   | [] => rc
   | o :: os => incOuts (upd rc o (rcInc (rc o))) os
 
-/-- The initial reference counts. -/
-def initRc (g : Graph) (plan outs : List Nat) : Option (Nat → Nat) :=
+/-- The counting phase, as a specification over bare functions. -/
+def initRcSpec (g : Graph) (plan outs : List Nat) : Option (Nat → Nat) :=
   match incPlan g (fun _ => 0) plan with
   | some rc => some (incOuts rc outs)
+  | none => none
+
+/-- A counter table in a box.  The functions above return `Nat → Nat`, which the compiler
+turns into closures that re-run the whole loop on every lookup; the boxed versions below
+compute the same tables (`Lemmas/ExecutorRc.lean`: `initRc_spec`) with one pass. -/
+structure RcBox where
+  f : Nat → Nat
+
+def incDepsB (g : Graph) : RcBox → List Nat → RcBox
+  | b, [] => b
+  | b, d :: ds => incDepsB g (if isValue g d then ⟨upd b.f d (rcInc (b.f d))⟩ else b) ds
+
+def incPlanB (g : Graph) : RcBox → List Nat → Option RcBox
+  | b, [] => some b
+  | b, i :: is =>
+    match getOp g i with
+    | some op => incPlanB g (incDepsB g b (opDeps g op)) is
+    | none => none
+
+def incOutsB : RcBox → List Nat → RcBox
+  | b, [] => b
+  | b, o :: os => incOutsB ⟨upd b.f o (rcInc (b.f o))⟩ os
+
+/-- The initial reference counts. -/
+def initRc (g : Graph) (plan outs : List Nat) : Option (Nat → Nat) :=
+  match incPlanB g ⟨fun _ => 0⟩ plan with
+  | some b => some (incOutsB b outs).f
   | none => none
 
 /-! ## In-place candidates and taking values -/
